@@ -38,6 +38,10 @@ structure Sh where
   firsts : List Tid := []             -- notifiers that pushed onto an empty list and have not yet published
   nwakers : List Tid := []            -- wakers that own HAS_NOTIFS and have not yet taken the snapshot
   sleepers : List Tid := []
+  zeroSince : List Nat := []          -- ghost: ids whose group has been empty at or after their registration
+  goodL : List Tid := []              -- leavers in the cmpxchg loop whose `old` has HAS_WAITERS or HAS_NOTIFS
+  ww : List Tid := []                 -- wakers that will call wake_by_address (their state has HAS_WAITERS)
+  armedL : List Tid := []             -- leavers in the cmpxchg loop whose `old` still has a bit to clear
 
 def rm (l : List Tid) (t : Tid) : List Tid := l.filter (fun x => !decide (x = t))
 def rmP (l : List (Nat × Tid)) (p : Nat × Tid) : List (Nat × Tid) := l.filter (fun x => !decide (x = p))
@@ -45,6 +49,11 @@ def rmP (l : List (Nat × Tid)) (p : Nat × Tid) : List (Nat × Tid) := l.filter
 /-- the value the leaver tries to install -/
 def cleared (old : W) : W :=
   if old.count = 0 then { old with N := false, Wt := false } else { old with N := false }
+
+/-- the leaver must cmpxchg (its `old` differs from what it wants to install) -/
+def armed (old : W) : Bool := old.N || (decide (old.count = 0) && old.Wt)
+
+def good (old : W) : Bool := old.Wt || old.N
 
 def step (sh : Sh) (t : Tid) (pc : Pc) (op : Op) : List (Sh × Pc) :=
   let w := sh.w
@@ -57,20 +66,27 @@ def step (sh : Sh) (t : Tid) (pc : Pc) (op : Op) : List (Sh × Pc) :=
       else if w.count = 1 then
         -- 64-bit add: the carry bumps the generation
         let w' := { w with count := 0, gen := w.gen + 1 }
-        [({ sh with w := w' }, .leave2 w')]
+        [({ sh with w := w', armedL := if armed w' then t :: sh.armedL else sh.armedL,
+                    goodL := if good w' then t :: sh.goodL else sh.goodL,
+                    zeroSince := List.range sh.nextId }, .leave2 w')]
       else [({ sh with w := { w with count := w.count - 1 } }, .idle)]
     | .notify =>
       let we := sh.list.isEmpty
       [({ sh with list := sh.list ++ [sh.nextId], nextId := sh.nextId + 1,
-                  firsts := if we then t :: sh.firsts else sh.firsts }, .nLinked we)]
+                  firsts := if we then t :: sh.firsts else sh.firsts,
+                  zeroSince := if w.count = 0 then sh.nextId :: sh.zeroSince else sh.zeroSince }, .nLinked we)]
     | .wait =>
       if w.count = 0 then [(sh, .wRet true none)]
       else [({ sh with w := { w with Wt := true } }, .wSlow w.gen w.gen)]
   | .leave2 old =>
-    if old = cleared old then [(sh, .wake old none)]
+    if old = cleared old then
+      [({ sh with goodL := rm sh.goodL t, ww := if old.Wt then t :: sh.ww else sh.ww }, .wake old none)]
     else if w = old then
-      [({ sh with w := cleared old, nwakers := if old.N then t :: sh.nwakers else sh.nwakers }, .wake old none)]
-    else [(sh, .leave2 w)]
+      [({ sh with w := cleared old, nwakers := if old.N then t :: sh.nwakers else sh.nwakers,
+                  armedL := rm sh.armedL t, goodL := rm sh.goodL t,
+                  ww := if old.Wt then t :: sh.ww else sh.ww }, .wake old none)]
+    else [({ sh with armedL := if armed w then t :: rm sh.armedL t else rm sh.armedL t,
+                     goodL := if good w then t :: rm sh.goodL t else rm sh.goodL t }, .leave2 w)]
   | .wake st snap =>
     if st.N then
       match snap with
@@ -83,7 +99,7 @@ def step (sh : Sh) (t : Tid) (pc : Pc) (op : Op) : List (Sh × Pc) :=
         [({ sh with submitted := h :: sh.submitted, inflight := rmP sh.inflight (h, t) }, .wake st (some r))]
     else [(sh, .wakeAddr st)]
   | .wakeAddr st =>
-    if st.Wt then [({ sh with woken := sh.sleepers ++ sh.woken }, .idle)] else [(sh, .idle)]
+    if st.Wt then [({ sh with woken := sh.sleepers ++ sh.woken, ww := rm sh.ww t }, .idle)] else [(sh, .idle)]
   | .nLinked we =>
     if !we then [(sh, .idle)]
     else if w.count = 0 ∧ w.N = false ∧ w.Wt = false then
